@@ -1041,7 +1041,8 @@ fn c05_inner(ctx: &Ctx, case: u64, acc: &mut Acc, lockstep: bool) -> Verdict {
     let mut r = Rng64::derive(ctx.seed, if lockstep { 0xC05C } else { 0xC05 }, case);
     let nmax = if ctx.tier == Tier::Quick { 6 } else { 10 };
     let n = r.range(3, nmax) as usize;
-    let p = 3 * R;
+    // probe_period 3 x rtt, or 5/3 x rtt as in Config::new_wan
+    let p = if (case / 3) % 4 == 3 { R * 5 / 3 } else { 3 * R };
     // the announce-to-down period: shorter than the time a member needs to declare an unreachable peer down
     // (suspect_to_down_after is (2n+1) periods here), or - as in the stock Config::new_lan/new_wan, where it is an
     // order of magnitude longer - longer than that, so that members who lose each other after the heal are all
@@ -1066,7 +1067,8 @@ fn c05_inner(ctx: &Ctx, case: u64, acc: &mut Acc, lockstep: bool) -> Verdict {
     // joins staggered (timers of different members out of phase) or all at the same instant (aligned timers)
     let join = if lockstep { *r.pick(&[Join::BurstToFirst, Join::Chain, Join::BurstToRandom]) } else { *r.pick(&[Join::SeqToFirst, Join::SeqToFirst, Join::BurstToFirst, Join::Chain]) };
     // a third of the cases with latencies up to 0.9 rtt (indirect probes routinely in play)
-    let lat = if Rng64::derive(ctx.seed, 0xC05A, case).chance(1, 3) { (1, R * 9 / 10) } else { (1, R / 4) };
+    // (only with probe_period = 3 x rtt: a round trip of up to 1.8 x rtt must still fit into one period)
+    let lat = if p == 3 * R && Rng64::derive(ctx.seed, 0xC05A, case).chance(1, 3) { (1, R * 9 / 10) } else { (1, R / 4) };
     let Some(mut f) = formed_with(sim_seed, n, &cfg, Renew::Bump, lat, join, acc)? else {
         acc.inconclusive += 1;
         return Ok(());
